@@ -117,7 +117,8 @@ Inductive cmp : Type := CGraph | CChain | CWorkflow.
 
 (* n_in / n_out: is the input / output type known (a pass-through node starts unknown;
    a node with an output key always has output type map[string]any) *)
-Record node : Type := mkNode { n_kind : nkind; n_in : bool; n_out : bool }.
+(* n_state: the node was added with a state pre/post handler *)
+Record node : Type := mkNode { n_kind : nkind; n_in : bool; n_out : bool; n_state : bool }.
 
 (* a data edge waiting in toValidateMap: (start, end, mapping target fields) *)
 Definition pend : Type := (string * string * list string)%type.
@@ -215,15 +216,15 @@ Definition out_typed (g : gstate) (k : string) : bool :=
 
 (* type inference of a pass-through node: cr.inputType and cr.outputType are both set *)
 Definition set_typed (k : string) (g : gstate) : gstate :=
-  set_nodes (map (fun kn => if String.eqb (fst kn) k then (fst kn, mkNode (n_kind (snd kn)) true true) else kn)
+  set_nodes (map (fun kn => if String.eqb (fst kn) k then (fst kn, mkNode (n_kind (snd kn)) true true (n_state (snd kn))) else kn)
                  (g_nodes g)) g.
 
 Definition fail (g : gstate) (e : ecls) : gstate * outcome := (set_err (Some e) g, OErr e).
 
-Definition init_node (nk : nkind) (out_key : bool) : node :=
+Definition init_node (nk : nkind) (out_key need_state : bool) : node :=
   match nk with
-  | NPass => mkNode nk false out_key
-  | _ => mkNode nk true true
+  | NPass => mkNode nk false out_key need_state
+  | _ => mkNode nk true true need_state
   end.
 
 (* graph.addNode; [nodekey_opt]: WithNodeKey given; [out_key]: WithOutputKey given *)
@@ -237,7 +238,7 @@ Definition g_add_node (g : gstate) (k : string) (nk : nkind) (need_state nodekey
     else if has_node g k then fail g EDupNode
     else if need_state && negb (g_state g) then fail g ENeedState
     else if nodekey_opt && negb (match g_cmp g with CChain => true | _ => false end) then fail g ENodeKeyOpt
-    else (set_nodes (g_nodes g ++ [(k, init_node nk out_key)]) g, OOk)
+    else (set_nodes (g_nodes g ++ [(k, init_node nk out_key need_state)]) g, OOk)
   end.
 
 (* updateToValidateMap: one pass over the pending list, then iterated to the fixpoint.
